@@ -19,6 +19,7 @@ pub fn oracles_for(name: &str) -> Oracles {
         "c03" => Oracles { leaf_grads: true, inner_grads: true, grad_shapes: true, ..Default::default() },
         "c08" => Oracles { immutable: true, ..Default::default() },
         "c09" => Oracles { grad_absence: true, flags: true, result_tracking: true, ..Default::default() },
+        "c11" => Oracles { custom_log: true, ..Default::default() },
         "c19" => Oracles { forward: true, leaf_grads: true, grad_shapes: true, result_tracking: true, ..Default::default() },
         _ => Oracles::default(),
     }
@@ -126,6 +127,7 @@ impl CaseKind for HistCase {
                     "c03" => st.passes >= 1 && st.grads_compared >= 1,
                     "c08" => st.snapshots_compared > 0 && (st.passes >= 1),
                     "c09" => st.passes >= 1,
+                    "c11" => st.log_entries_checked >= 1 && st.logged_shared_node,
                     _ => st.passes >= 1,
                 };
                 Outcome::pass(nontrivial, key, classes_of(&st))
